@@ -159,20 +159,26 @@ class Run:
         self.corr = {"encode": [], "data": [], "repair": []}
         self.enc_cache = {}
         self.enc_sent = 0
+        self.enc_quiet = set()  # messages whose encode line is not sent to the model (the oracle sees them all)
 
-    def encode(self, m: str) -> str:
+    def encode(self, m: str, corr: bool = True) -> str:
         if m not in self.enc_cache:
             self.enc_cache[m] = call(self.B.encode, bitarray(m))
+            if not corr:
+                self.enc_quiet.add(m)
         return self.enc_cache[m]
 
-    def check(self, m: str, positions, tag: str, corr_level: int = 2, sample=False):
+    def check(self, m: str, positions, tag: str, corr_level: int = 2, sample=False, extra=None, enc_corr=True):
         """one (message, error pattern): oracle on the real code + lines for the correspondence.
-        corr_level 0: oracle only, 1: repair line, 2: repair + data lines"""
+        corr_level 0: oracle only, 1: repair line, 2: repair + data lines; extra: what else the record of a
+        failing input says about how the input was built"""
         ctx, B = self.ctx, self.B
         positions = tuple(sorted(positions))
         wgt = len(positions)
         inp = {"message": m, "error_positions": list(positions)}
-        c = self.encode(m)
+        if extra:
+            inp.update(extra)
+        c = self.encode(m, enc_corr)
         ctx.count(f"weight:{wgt}")
         ctx.count(f"shape:{tag}")
         if c.startswith("ERR") or len(c) != 196:
@@ -210,7 +216,7 @@ class Run:
         if ctx.search_only or not ctx.driver_ok:
             return
         items = list(self.enc_cache.items())
-        enc = [(f"bptc.encode {m}", c) for m, c in items[self.enc_sent:]]
+        enc = [(f"bptc.encode {m}", c) for m, c in items[self.enc_sent:] if m not in self.enc_quiet]
         self.enc_sent = len(items)
         for name, pairs in (("encode", enc + self.corr["encode"]), ("deinterleave_data_bits", self.corr["data"]),
                             ("repair_if_necessary", self.corr["repair"])):
@@ -633,8 +639,9 @@ class Rel:
     its code word, inputs of wrong lengths.  The reference code word comes from a new copy of the class."""
     R_VALUES = ("0111", "0110", "0101", "0011", "1111", "1110", "0100", "0010", "0001", "1000")
 
-    def __init__(self, m, rng, tabs, by_rc):
+    def __init__(self, m, rng, tabs, by_rc, aims=None):
         self.m, self.rng, self.by_rc = m, rng, by_rc
+        self.aims = aims or []  # error patterns aimed at the structure of the message (round 4), if it has one
         self.il, self.info_keys, self.res_keys = tabs
         F = fresh_class() or bptc()
         self.F = F
@@ -701,6 +708,8 @@ class Rel:
 
     def errors(self, wmax=2):
         rng = self.rng
+        if self.aims and wmax >= 1 and rng.random() < 0.6:
+            return tuple(sorted(rng.choice(self.aims)[:wmax]))
         k = rng.random()
         if wmax == 0 or k < 0.12:
             return ()
@@ -1023,9 +1032,22 @@ def random_history(rng, rels, length):
     return b.steps
 
 
-def message_for_history(rng):
-    """base message of one history: random, or a shape whose integer value / prefix / suffix is special"""
+def message_for_history(rng, struct=None):
+    """base message of one history: random, or a shape whose integer value / prefix / suffix is special, or (round 4) a
+    message with a row / column structure in the payload table; the error patterns aimed at that structure are left in
+    struct.hist_aims for the Rel of the message"""
     k = rng.random()
+    if k < 0.12 and struct is not None and struct.ok:
+        g = struct.grids[rng.choice(("row", "row", "column"))]
+        l1, l2 = sorted(rng.sample(range(g.L), 2))
+        p = rng.randrange(g.P)
+        got = struct.build_near(g, rng.choice(("empty", "empty", "above", "below", "same-as-all", "ones", "two-above")), p, l1, l2,
+                                rng.choice(("between", "after", "before", "random", "same")))
+        if got is not None:
+            m = g.message(got[0])
+            struct.hist_aims[m] = [tuple(sorted({struct.pay.by_rc[rc] for rc in cells}))
+                                   for pats, _ in struct.aims_near(g, p, l1, l2, got[2]) for _, cells in pats][:8]
+            return m, "row-or-column-structure"
     if k < 0.6:
         return rand_bits(rng, 96), "random"
     if k < 0.7:
@@ -1678,9 +1700,13 @@ class Histories:
         self.lines = []
         self.pending = []
         self.pool = {}  # kind -> histories whose calls all have valid lengths (for the ambient-state sample)
+        try:
+            self.struct = Structures(ctx, R, by_rc)
+        except Exception:  # noqa
+            self.struct = None
 
     def rel(self, m):
-        return Rel(m, self.ctx.rng, self.tabs, self.by_rc)
+        return Rel(m, self.ctx.rng, self.tabs, self.by_rc, aims=self.struct.hist_aims.get(m) if self.struct is not None else None)
 
     def patterns(self, rel):
         """error patterns for the code words a history handed out: the classes the repair treats differently"""
@@ -1786,7 +1812,7 @@ def run_histories(ctx, R, by_rc):
         names_q = [n for n, _ in probes(Hs.rel("0" * 96), rng)]
         for ip, np_ in enumerate(names_p):
             for iq, nq in enumerate(names_q):
-                m, shape = message_for_history(rng)
+                m, shape = message_for_history(rng, Hs.struct)
                 rel = Hs.rel(m)
                 b = Build()
                 primes(rel, rng)[ip][1](b)
@@ -1801,7 +1827,7 @@ def run_histories(ctx, R, by_rc):
     cap = 1 if not ctx.thorough() else 4
     n_reuse = (170 if not ctx.thorough() else 2400) * boost
     for i in range(n_reuse):
-        m, shape = message_for_history(rng)
+        m, shape = message_for_history(rng, Hs.struct)
         rel = Hs.rel(m)
         steps, tags = Reuse(rel, alg, rng).history(rng.choice((1, 2, 2, 3)))
         ctx.count(f"hist:message:{shape}")
@@ -1812,7 +1838,7 @@ def run_histories(ctx, R, by_rc):
             Hs.flush()
     n_msg = (60 if not ctx.thorough() else 800) * boost
     for i in range(n_msg):
-        m, shape = message_for_history(rng)
+        m, shape = message_for_history(rng, Hs.struct)
         rel = Hs.rel(m)
         steps, tags = message_reuse_history(rng, rel, alg)
         ctx.count(f"hist:message:{shape}")
@@ -1825,7 +1851,7 @@ def run_histories(ctx, R, by_rc):
     for rep in range(reps):
         for n in range(1, 9):
             for variant in range(6):
-                m, shape = message_for_history(rng)
+                m, shape = message_for_history(rng, Hs.struct)
                 rel = Hs.rel(m)
                 steps = streak_history(rng, rel, n, variant)
                 ctx.count(f"hist:noise-streak:{n}")
@@ -1836,7 +1862,7 @@ def run_histories(ctx, R, by_rc):
     # ---- random interleavings
     n_rand = (500 if not ctx.thorough() else 6000) * boost
     for i in range(n_rand):
-        m, shape = message_for_history(rng)
+        m, shape = message_for_history(rng, Hs.struct)
         rels = [Hs.rel(m)]
         if rng.random() < 0.4:
             rels.append(Hs.rel(rels[0].near()))
@@ -1848,7 +1874,7 @@ def run_histories(ctx, R, by_rc):
     # ---- long streaks (a back-off that needs more than 8 frames)
     for n in ((12, 16, 32, 64) if not ctx.thorough() else (12, 16, 32, 64, 100, 128, 256, 300, 1000, 1030)):
         for variant in (0, 4) if n <= 64 else (0,):
-            m, shape = message_for_history(rng)
+            m, shape = message_for_history(rng, Hs.struct)
             rel = Hs.rel(m)
             ctx.count("hist:noise-streak:long")
             Hs.run(streak_history(rng, rel, n, variant), rel, "noise-streak")
@@ -2040,6 +2066,772 @@ def scale_stream(ctx, R):
                      "encode returns another code word for the same message after a long stream of other messages", expected=c, actual=c2)
 
 
+# ======================================================================================================
+# Round 4: the STRUCTURE of the message in the 9x11 payload block of the table, correlated with the error
+# positions.  The repair is content-independent (Props/C02: repair_content_independent — what it does to a
+# received word depends on the error pattern only), so unit / random messages say everything about the code
+# as it is; a change that looks at the CONTENT of the received table (rows that "look like padding", a row that
+# "repeats" its neighbour, a column that "is empty", a line of weight k …) breaks that, and fails only for
+# messages that have such a structure AND errors that hit exactly the bits that make the structure.  Messages
+# are therefore generated by LINE structure (a line = a table row, or — transposed — a table column), and the
+# <= 2 errors are AIMED at the structure:
+#
+#   near-special   two lines are ONE bit (the same position p) away from a special content: empty, all ones,
+#                  alternating, a code word with empty parity part, equal to every other line, equal to the line
+#                  above / below / two / three above, the XOR of the two lines above, the complement of the line
+#                  above; the other lines: random, empty outside / before / after (the two lines are the outermost
+#                  used ones, the top two, the bottom two), all equal, period 2 / 3, lone bits; every position p x
+#                  every pair of line positions; errors: the two extra bits, the bits on the other side of the
+#                  relation, the parity cells in which the two lines differ from the special content, one of them
+#                  and any cell of the crossing line / of the same line, each alone
+#   aligned        two lines ARE special (equal to the line above / two / three above, empty, full, equal to all);
+#                  errors in the same position of both (every position incl. parity), in a line and its twin
+#   window         the used lines are a window [a, b] (dense, only its ends, every other line); errors in the first
+#                  and last used line, the first two, the last two, just outside, across the edge
+#   lone           every line holds exactly one set bit (same position, diagonals, random); errors at pairs of them;
+#                  lines of weight exactly k (0..P) that an error takes to k-1 / k+1; messages of weight 0..96
+#   parity-lines   the same one-bit-off structure in the PARITY lines of the table (rows 9..12 / columns 11..14;
+#                  the message is found by GF(2) elimination on the unit code words) and in one payload + one
+#                  parity line
+#   zero-parity    messages whose code word has an EMPTY parity part (row parity, column parity, checks on checks,
+#                  all 100 of them: kernel of the restriction of the code), errors at set data cells
+#
+# Every frame comes from encode itself and is checked against the property as stated.  A quick run with the
+# committed source takes every 4th member of the big families (all of them when the source drifted / thorough).
+# ======================================================================================================
+STRUCT_ABS = ("empty", "ones", "alt01", "alt10", "kernel", "same-as-all")
+# relation -> offsets of the lines the special content is made of
+STRUCT_REL = {"above": (-1,), "below": (1,), "two-above": (-2,), "three-above": (-3,), "xor-of-two-above": (-1, -2),
+              "complement-of-above": (-1,), "above-shifted-by-one": (-1,)}
+FILLS_WINDOW = ("between", "after", "before", "random")
+FILLS_ROT = ("random", "same", "period2", "between", "period3", "empty", "after", "lone-same", "before", "lone-diag")
+BASE_KINDS = ("random", "kernel", "ones", "alt01", "low", "cw-other", "random", "alt10")
+
+
+LITERAL_MODULES = ("okdmr.dmrlib.etsi.fec.bptc_196_96", "okdmr.dmrlib.etsi.fec.hamming_15_11_3", "okdmr.dmrlib.etsi.fec.hamming_13_9_3",
+                   "okdmr.dmrlib.etsi.fec.hamming_common", "okdmr.dmrlib.etsi.fec.fec_utils")
+
+
+def harvest_literals():
+    """bit patterns written out in the CURRENT source of the modules under test (the check is rebuilt from the tree on every
+    run, so a constant that a change compares the table with is visible here): strings of 0 / 1, lists / tuples of the ints 0 / 1
+    (4..196 elements), bytes, integer literals above 196 (every smaller value is a position of the interleaving table).
+    -> [(from the BPTC module itself, tuple of bits)], in source order, without repetitions"""
+    import ast
+    import importlib
+    out, seen = [], set()
+    for n, name in enumerate(LITERAL_MODULES):
+        try:
+            mod = sys.modules.get(name) or importlib.import_module(name)
+            with open(mod.__file__, encoding="utf-8") as fh:
+                tree = ast.parse(fh.read())
+        except Exception:  # noqa
+            continue
+        for node in ast.walk(tree):
+            bits = None
+            if isinstance(node, ast.Constant):
+                v = node.value
+                if isinstance(v, str) and 4 <= len(v) <= 196 and set(v) <= {"0", "1"}:
+                    bits = tuple(int(ch) for ch in v)
+                elif type(v) is int and 196 < v and v.bit_length() <= 196:
+                    bits = tuple(int(ch) for ch in bin(v)[2:])
+                elif isinstance(v, bytes) and 1 <= len(v) <= 24:
+                    bits = tuple(int(ch) for b in v for ch in format(b, "08b"))
+            elif isinstance(node, (ast.List, ast.Tuple)) and 4 <= len(node.elts) <= 196 and \
+                    all(isinstance(e, ast.Constant) and type(e.value) is int and e.value in (0, 1) for e in node.elts):
+                bits = tuple(e.value for e in node.elts)
+            if bits and any(bits) and bits not in seen:
+                seen.add(bits)
+                out.append((n == 0, bits))
+    return out
+
+
+class Payload:
+    """the payload block of the 13x15 table as the live INTERLEAVING_INDICES lays it out: message bit <-> cell"""
+
+    def __init__(self, by_rc):
+        I = bptc().INTERLEAVING_INDICES
+        self.by_rc = by_rc
+        keys = [k for k, v in I.items() if not v[3] and not v[4]]
+        self.cell_of_bit = [(I[k][1] - 1, I[k][2]) for k in keys]
+        self.bit_of_cell = {rc: i for i, rc in enumerate(self.cell_of_bit)}
+        self.ok = (len(keys) == 96 and len(self.bit_of_cell) == 96
+                   and all(0 <= r < 9 and 0 <= c < 11 for r, c in self.cell_of_bit)
+                   and all((r, c) in by_rc for r in range(13) for c in range(15))
+                   and all((r, 3) in self.bit_of_cell for r in range(9)) and all((3, c) in self.bit_of_cell for c in range(11)))
+
+    def rows(self, m: str):
+        """the 9 payload rows of a message as strings ('.' = a cell that carries no message bit)"""
+        return ["".join(m[self.bit_of_cell[(r, c)]] if (r, c) in self.bit_of_cell else "." for c in range(11)) for r in range(9)]
+
+
+class Grid:
+    """the table as lines x positions: orientation 'row' (line = table row, position = column: 9 payload lines of 11
+    positions) or 'column' (the transpose: 11 payload lines of 9 positions); the parity lines follow the payload lines
+    (L..L+3), the parity positions the payload positions (P..P+3).  A line is an int, bit p = position p."""
+
+    def __init__(self, pay, orient, alg):
+        self.pay, self.orient = pay, orient
+        self.L, self.P = (9, 11) if orient == "row" else (11, 9)
+        self.all = (1 << self.P) - 1
+        self._free = {}
+        # parity of the unit lines under the line code, read from unit code words of a line that is all message bits
+        self.par = [0] * self.P
+        if alg.ok:
+            for p in range(self.P):
+                u = alg.units[pay.bit_of_cell[self.rc(3, p)]]
+                for q in range(4):
+                    if u >> (195 - pay.by_rc[self.rc(3, self.P + q)]) & 1:
+                        self.par[p] |= 1 << q
+        self.parity = [0] * (1 << self.P)
+        for x in range(1, 1 << self.P):
+            low = x & -x
+            self.parity[x] = self.parity[x ^ low] ^ self.par[low.bit_length() - 1]
+        # lines that are code words with an empty parity part
+        self.kernel = [x for x in range(1, 1 << self.P) if self.parity[x] == 0] if any(self.par) else []
+        # the OTHER code, for 'a line that is the beginning of a code word of the other code'
+        self.other_par = None
+        self.literals = {}  # name -> content of a line taken from a bit pattern written out in the source
+
+    def add_literals(self, found, rng, cap_main=8, cap_other=2):
+        """contents of a line made of the harvested bit patterns: the first / last P bits of a longer one, a shorter one at
+        either end of the line, each in both bit orders; every pattern of the BPTC module itself (up to cap_main), a
+        seeded choice of the others"""
+        P = self.P
+
+        def lines_of(bits):
+            n, res = len(bits), []
+            cuts = [bits[:P], bits[-P:]] if n >= P else [bits + (0,) * (P - n), (0,) * (P - n) + bits]
+            for cut in cuts:
+                for order in (cut, cut[::-1]):
+                    x = sum(1 << p for p, b in enumerate(order) if b)
+                    if x not in (0, self.all) and x not in res:
+                        res.append(x)
+            return res
+
+        main, other = [], []
+        for is_main, bits in found:
+            for x in lines_of(bits):
+                tgt = main if is_main else other
+                if x not in main and x not in other:
+                    tgt.append(x)
+        chosen = main[:cap_main] + rng.sample(other, min(cap_other, len(other)))
+        self.literals = {"literal-" + "".join(str(x >> p & 1) for p in range(P)): x for x in chosen}
+
+    def rc(self, l, p):
+        return (l, p) if self.orient == "row" else (p, l)
+
+    def free(self, lines):
+        """positions at which every one of the given payload lines carries a message bit"""
+        key = frozenset(lines)
+        if key not in self._free:
+            self._free[key] = sum(1 << p for p in range(self.P) if all(self.rc(l, p) in self.pay.bit_of_cell for l in key))
+        return self._free[key]
+
+    def message(self, lines) -> str:
+        if self.orient == "row":
+            return "".join("1" if lines[r] >> c & 1 else "0" for r, c in self.pay.cell_of_bit)
+        return "".join("1" if lines[c] >> r & 1 else "0" for r, c in self.pay.cell_of_bit)
+
+    def base(self, kind, mask, rng):
+        P = self.P
+        if kind == "random":
+            x = rng.getrandbits(P)
+        elif kind in ("zero", "empty"):
+            x = 0
+        elif kind == "ones":
+            x = self.all
+        elif kind == "alt01":
+            x = sum(1 << p for p in range(1, P, 2))
+        elif kind == "alt10":
+            x = sum(1 << p for p in range(0, P, 2))
+        elif kind == "low":
+            x = 0
+            for p in rng.sample(range(P), rng.choice((1, 2, 2, 3))):
+                x |= 1 << p
+        elif kind == "kernel":
+            ks = [k for k in self.kernel if not k & ~mask]
+            x = rng.choice(ks) if ks else 0
+        elif kind in self.literals:
+            x = self.literals[kind]
+        elif kind == "cw-other" and self.other_par is not None:
+            # the first P bits of a code word of the other code (9 data bits and its first two parity bits in a row)
+            d = rng.getrandbits(self.P - 2)
+            x = d | (self.other_par[d] & 3) << (self.P - 2)
+        else:
+            x = rng.getrandbits(P)
+        return x & mask
+
+    def nonempty(self, x, mask, rng):
+        return x if x & mask else 1 << rng.choice([p for p in range(self.P) if mask >> p & 1])
+
+
+def solve_affine(eqs):
+    """GF(2): eqs = [(coefficient mask, right-hand side)] -> (the solution whose free variables are 0, the reduced pivot
+    rows {pivot variable: (mask, right-hand side)}) or None when the equations contradict each other"""
+    piv = {}
+    for a, t in eqs:
+        while a:
+            h = a.bit_length() - 1
+            if h not in piv:
+                piv[h] = (a, t)
+                break
+            a, t = a ^ piv[h][0], t ^ piv[h][1]
+        else:
+            if t:
+                return None
+    hs = sorted(piv)
+    for h in hs:
+        a, t = piv[h]
+        for g in hs:
+            if g > h and piv[g][0] >> h & 1:
+                piv[g] = (piv[g][0] ^ a, piv[g][1] ^ t)
+    part = 0
+    for h in hs:
+        if piv[h][1]:
+            part |= 1 << h
+    return part, piv
+
+
+class Structures:
+    def __init__(self, ctx, R, by_rc):
+        self.ctx, self.R, self.rng = ctx, R, ctx.rng
+        self.pay = Payload(by_rc)
+        self.ok = self.pay.ok
+        self.hist_aims = {}
+        if not self.ok:
+            return
+        I = R.B.INTERLEAVING_INDICES
+        self.alg = Algebra(({k: v[0] for k, v in I.items()}, [k for k, v in I.items() if not v[3] and not v[4]], []), by_rc)
+        self.grids = {o: Grid(self.pay, o, self.alg) for o in ("row", "column")}
+        self.grids["row"].other_par = self.grids["column"].parity
+        try:
+            found = harvest_literals()
+        except Exception:  # noqa
+            found = []
+        ctx.count("structure:literals-in-the-source", len(found))
+        for g in self.grids.values():
+            g.add_literals(found, self.rng)
+        self.literal_messages = [bits for _, bits in found if len(bits) == 96][:8]
+        self.n = 0
+        # more messages of the small families and more aimed patterns per message (thorough / the proof or the
+        # correspondence broke): 4 times the seeded choice of a quick run; every aimed pattern when both hold
+        self.full = ctx.thorough() or ctx.boost >= 8
+        self.every = ctx.thorough() and ctx.boost >= 8
+        self.mult = 4 if self.full else 1
+        # every member of the big families (thorough / the source drifted), or every 4th
+        self.stride = 1 if (ctx.thorough() or ctx.boost >= 3) else 4
+        self.offset = self.rng.randrange(self.stride)
+        # coefficient mask of every on-air position: which message bits its code word bit is the sum of
+        self.coef = [0] * 196
+        for i, u in enumerate(self.alg.units):
+            for p in _positions(u):
+                self.coef[p] |= 1 << i
+
+    # ---- one structured message and the error patterns aimed at it
+    def emit(self, g, family, desc, lines, groups, m=None):
+        """groups: [([(name, cells of the table), …], how many of them a quick run takes)]; the clean code word of
+        every other message goes along (round trip, repair leaves it alone)"""
+        rng, ctx = self.rng, self.ctx
+        m = g.message(lines) if m is None else m
+        extra = {"structure": f"{g.orient}s as lines; {desc}", "payload_rows": self.pay.rows(m)}
+        self.n += 1
+        if self.n % 8 == 0:
+            self.layout_lines(m, extra["payload_rows"])
+        chosen = []
+        for pats, k in groups:
+            pats = [pt for pt in pats if pt[1]]
+            chosen += pats if (self.every or k * self.mult >= len(pats)) else rng.sample(pats, k * self.mult)
+        if self.full or self.n % 2 == 0:
+            chosen.append(("clean", ()))
+        ctx.count(f"structure:{family}:messages")
+        seen = set()
+        for j, (name, cells) in enumerate(chosen):
+            pos = tuple(sorted({self.pay.by_rc[rc] for rc in cells}))
+            if pos in seen:
+                continue
+            seen.add(pos)
+            ctx.count(f"structure:aim:{name}")
+            if self.n % 8 == 0 and j == 0:
+                self.layout_lines(m, None, pos)
+            self.R.check(m, pos, f"structure:{family}", corr_level=1 if (self.n + j) % 10 == 0 else 0, sample=(self.n == 5 and j == 0),
+                         extra=dict(extra, errors_aimed_at=name), enc_corr=(self.n % 5 == 0))
+
+    def layout_lines(self, m, rows, pos=None):
+        """model vs code on the LAYOUT the generator relies on: the payload rows fill_encoding_table lays a message out in
+        (bptc.rows), the 13x15 table repair_if_necessary builds from a received word (bptc.table); the generator's own
+        reading of INTERLEAVING_INDICES is compared with what the class does as well"""
+        ctx, B = self.ctx, self.R.B
+        if ctx.search_only or not ctx.driver_ok:
+            return
+
+        def table(x, nr, nc, deint):
+            try:
+                b = bitarray(x)
+                t = B.fill_encoding_table(B.make_encoding_table(), B.deinterleave_all_bits(b) if deint else b)
+                return "/".join("".join("1" if t[r][c] == 1 else "0" if t[r][c] == 0 else "?" for c in range(nc)) for r in range(nr))
+            except BaseException as e:  # noqa
+                return impl_error(e)
+
+        if pos is None:
+            out = table(m, 9, 11, False)
+            self.R.corr["encode"].append((f"bptc.rows {m}", out))
+            ctx.count("structure:layout:rows-compared")
+            if out != "/".join(r.replace(".", "0") for r in rows):
+                ctx.count("structure:layout:fill-differs-from-the-interleaving-table")
+        else:
+            c = self.R.encode(m)
+            if len(c) == 196 and not c.startswith("ERR"):
+                w = flip(c, pos)
+                out = table(w, 13, 15, True)
+                self.R.corr["repair"].append((f"bptc.table {w}", out))
+                ctx.count("structure:layout:received-table-compared")
+                if out != "/".join("".join(w[self.pay.by_rc[(r, q)]] for q in range(15)) for r in range(13)):
+                    ctx.count("structure:layout:received-table-differs-from-the-interleaving-table")
+
+    def fill_fn(self, g, fill, l1, l2, p):
+        """content of the lines that are not part of the structure"""
+        rng = self.rng
+        xs = [g.base(rng.choice(BASE_KINDS), g.all, rng) for _ in range(3)]
+
+        def f(l):
+            if fill == "random":
+                return rng.getrandbits(g.P)
+            if fill == "empty":
+                return 0
+            if fill == "between":
+                return g.nonempty(rng.getrandbits(g.P), g.free({l}), rng) if l1 < l < l2 else 0
+            if fill == "after":
+                return g.nonempty(rng.getrandbits(g.P), g.free({l}), rng) if l > l2 else 0
+            if fill == "before":
+                return g.nonempty(rng.getrandbits(g.P), g.free({l}), rng) if l < l1 else 0
+            if fill == "same":
+                return xs[0]
+            if fill == "period2":
+                return xs[l % 2]
+            if fill == "period3":
+                return xs[l % 3]
+            if fill == "lone-same":
+                return 1 << p
+            if fill == "lone-diag":
+                return 1 << ((l + p) % g.P)
+            return rng.getrandbits(g.P)
+
+        return f, xs
+
+    def aims_near(self, g, p, l1, l2, others=()):
+        """error patterns aimed at two lines that are one bit (position p) away from something special"""
+        rng, P, L = self.rng, g.P, g.L
+        a1, a2 = g.rc(l1, p), g.rc(l2, p)
+        key = [("both-extra-bits", (a1, a2))]
+        sec = []
+        if others:
+            b1, b2 = others
+            sec += [("extra-bit+other-side", (a1, g.rc(b2, p))), ("other-side+extra-bit", (g.rc(b1, p), a2)),
+                    ("both-other-sides", (g.rc(b1, p), g.rc(b2, p)))]
+        qs = [q for q in range(4) if g.par[p] >> q & 1]
+        sec += [("differing-parity-cells", (g.rc(l1, P + q), g.rc(l2, P + q))) for q in qs]
+        sec += [("extra-bit+differing-parity-cell", (a1, g.rc(l2, P + q))) for q in qs[:1]]
+        sec += [("one-extra-bit", (a1,)), ("one-extra-bit", (a2,))]
+        cross = [l for l in range(L + 4) if l not in (l1, l2)]
+        sec += [("extra-bit+crossing-line", (a1, g.rc(l, p))) for l in rng.sample(cross, 3)]
+        sec += [("extra-bit+crossing-line", (a2, g.rc(rng.choice(cross), p)))]
+        sec += [("extra-bit+same-line", (a1, g.rc(l1, q))) for q in rng.sample([q for q in range(P + 4) if q != p], 2)]
+        if g.orient == "column" and p < 9:
+            # the row pass runs first and "corrects" a third cell of a table row that holds two errors: two errors in
+            # table row p chosen so that the third cell is the extra bit of line l1 / l2
+            syn = self.grids["row"].par + [1, 2, 4, 8]
+            for l in (l1, l2):
+                j1 = rng.choice([j for j in range(15) if j != l])
+                j2 = [j for j in range(15) if syn[j] == syn[j1] ^ syn[l]]
+                if j2 and j2[0] not in (j1, l):
+                    sec.append(("row-pass-miscorrection-lands-on-extra-bit", ((p, j1), (p, j2[0]))))
+        return [(key, 1), (sec, 1)]
+
+    def build_near(self, g, S, p, l1, l2, fill):
+        """lines l1 < l2 one bit (position p) away from the special content S -> (lines, description, other-side lines)"""
+        rng, L = self.rng, g.L
+        offs = STRUCT_REL.get(S)
+        special = (l1, l2)
+        involved = set(special)
+        if offs:
+            if any(not 0 <= l + o < L for l in special for o in offs):
+                return None
+            involved |= {l + o for l in special for o in offs}
+        mask = g.free(involved)
+        if not mask >> p & 1:
+            return None
+        f, xs = self.fill_fn(g, fill, l1, l2, p)
+        lines = [f(l) & g.free({l}) for l in range(L)]
+        for l in involved:
+            lines[l] &= mask
+        S0 = None
+        if S == "same-as-all":
+            S0 = xs[0] & mask
+            lines = [(xs[0] & g.free({l})) for l in range(L)]
+        elif not offs:
+            S0 = g.base(S, mask, rng)
+        for l in (range(L) if not offs or offs[0] < 0 else reversed(range(L))):
+            if l in special:
+                if offs:
+                    ref = 0
+                    for o in offs:
+                        ref ^= lines[l + o]
+                    if S.startswith("complement"):
+                        ref = ~ref & mask
+                    elif S.endswith("shifted-by-one"):
+                        ref = (ref << 1) & mask
+                else:
+                    ref = S0
+                lines[l] = ref ^ (1 << p)
+        return lines, f"lines {l1} and {l2} = [{S}] with position {p} inverted, other lines: {fill}", \
+            tuple(l + offs[0] for l in special) if offs else ()
+
+    def near_special(self):
+        ctx = self.ctx
+        for o, g in self.grids.items():
+            pairs = list(itertools.combinations(range(g.L), 2))
+            for si, S in enumerate(STRUCT_ABS + tuple(STRUCT_REL) + tuple(g.literals)):
+                for fi, fill0 in enumerate(FILLS_WINDOW if S == "empty" else (None,)):
+                    for pi, (l1, l2) in enumerate(pairs):
+                        for p in range(g.P):
+                            if (pi + p + fi + si) % self.stride != self.offset:
+                                continue
+                            fill = fill0 or FILLS_ROT[(pi * 7 + p * 3 + si) % len(FILLS_ROT)]
+                            got = self.build_near(g, S, p, l1, l2, fill)
+                            if got is None:
+                                ctx.count("structure:near-special:not-constructible")
+                                continue
+                            lines, desc, others = got
+                            ctx.count(f"structure:near-special:{o}:{S.split('-')[0] if S in g.literals else S}")
+                            ctx.count(f"structure:fill:{fill}")
+                            self.emit(g, "near-special", desc, lines, self.aims_near(g, p, l1, l2, others))
+            self.R.flush()
+
+    def aligned(self):
+        """two lines ARE special (equal to a neighbour, empty, full, equal to all others); errors in the same position
+        of both lines — every position, parity included — and in a line and its twin"""
+        ctx, rng = self.ctx, self.rng
+        for o, g in self.grids.items():
+            pairs = list(itertools.combinations(range(g.L), 2))
+            n = 0
+            for S in ("above", "two-above", "three-above", "empty", "ones", "same-as-all", "kernel", "alt01") + tuple(g.literals):
+                offs = STRUCT_REL.get(S)
+                for l1, l2 in pairs:
+                    involved = {l1, l2}
+                    if offs:
+                        if l1 + offs[0] < 0:
+                            continue
+                        involved |= {l1 + offs[0], l2 + offs[0]}
+                    mask = g.free(involved)
+                    n += 1
+                    fill = FILLS_ROT[n % 4]  # random, same, period2, between
+                    f, xs = self.fill_fn(g, fill, l1, l2, n % g.P)
+                    lines = [f(l) & g.free({l}) for l in range(g.L)]
+                    if S == "same-as-all":
+                        lines = [xs[0] & g.free({l}) for l in range(g.L)]
+                    for l in involved:
+                        lines[l] &= mask
+                    if offs:
+                        for l in (l1, l2):  # ascending: a chain l2 = l1 + 1 copies the copy
+                            lines[l] = lines[l + offs[0]]
+                    elif S != "same-as-all":
+                        lines[l1], lines[l2] = g.base(S, mask, rng), g.base(S, mask, rng)
+                    allq = range(g.P + 4)
+                    groups = [([("same-position-in-both", (g.rc(l1, q), g.rc(l2, q))) for q in allq], 3)]
+                    if offs:
+                        groups.append(([("line-and-its-twin", (g.rc(l + offs[0], q), g.rc(l, q))) for q in allq for l in (l1, l2)], 2))
+                    groups.append(([("two-in-one-special-line", (g.rc(l1, q), g.rc(l1, (q + 1 + n) % (g.P + 4)))) for q in allq], 1))
+                    ctx.count(f"structure:aligned:{o}:{S.split('-')[0] if S in g.literals else S}")
+                    self.emit(g, "aligned", f"lines {l1} and {l2} are [{S}], other lines: {fill}", lines, groups)
+        self.R.flush()
+
+    def window(self):
+        """the used lines are a window [a, b]: empty lines at the top / bottom / in the middle"""
+        ctx, rng = self.ctx, self.rng
+        for o, g in self.grids.items():
+            L, P = g.L, g.P
+            for a in range(L):
+                for b in range(a, L):
+                    v = ("dense", "only-the-ends", "every-other-line")[(a * 3 + b) % 3]
+                    lines = [0] * L
+                    for l in range(a, b + 1):
+                        if v == "dense" or l in (a, b) or (v == "every-other-line" and (l - a) % 2 == 0):
+                            lines[l] = g.nonempty(rng.getrandbits(P) & g.free({l}), g.free({l}), rng)
+                    allq = range(P + 4)
+                    groups = []
+                    if a < b:
+                        groups.append(([("first-and-last-used-line", (g.rc(a, q), g.rc(b, q))) for q in allq], 2))
+                        groups.append(([("first-two-lines-of-the-window", (g.rc(a, q), g.rc(a + 1, q))) for q in allq], 1))
+                        groups.append(([("last-two-lines-of-the-window", (g.rc(b - 1, q), g.rc(b, q))) for q in allq], 1))
+                    groups.append(([("two-in-the-first-used-line", (g.rc(a, q), g.rc(a, (q + 1 + a + b) % (P + 4)))) for q in allq], 1))
+                    out = [l for l in (a - 1, b + 1) if 0 <= l < L]
+                    if len(out) == 2:
+                        groups.append(([("just-outside-the-window", (g.rc(out[0], q), g.rc(out[1], q))) for q in allq], 1))
+                    if out:
+                        groups.append(([("across-the-edge", (g.rc(l, q), g.rc(a if l < a else b, q))) for q in allq for l in out], 1))
+                        groups.append(([("empty-line-next-to-the-window", (g.rc(l, q),)) for q in allq for l in out], 1))
+                    ctx.count(f"structure:window:{o}:{v}")
+                    self.emit(g, "window", f"used lines {a}..{b} ({v}), every other line empty", lines, groups)
+        self.R.flush()
+
+    def lone(self):
+        """every line holds exactly one set bit; lines of weight exactly k; messages of weight exactly k"""
+        ctx, rng = self.ctx, self.rng
+        for o, g in self.grids.items():
+            L, P = g.L, g.P
+            places = [(f"all at position {p}", [p] * L) for p in range(P)]
+            places += [(f"diagonal from {s}", [(l + s) % P for l in range(L)]) for s in range(P)]
+            places += [(f"anti-diagonal from {s}", [(s - l) % P for l in range(L)]) for s in range(P)]
+            places += [("random positions", [rng.randrange(P) for _ in range(L)]) for _ in range(3)]
+            for name, pos in places:
+                lines = [(1 << pos[l]) & g.free({l}) for l in range(L)]
+                used = [l for l in range(L) if lines[l]]
+                groups = [([("two-lone-bits", (g.rc(l, pos[l]), g.rc(k, pos[k]))) for l, k in itertools.combinations(used, 2)], 6),
+                          ([("lone-bit+cell-under-another", (g.rc(l, pos[l]), g.rc(l, pos[k]))) for l in used for k in used if pos[k] != pos[l]], 2)]
+                ctx.count(f"structure:lone:{o}:every-line-one-bit")
+                self.emit(g, "lone", f"every line holds exactly one set bit ({name})", lines, groups)
+            # two lines of weight exactly k, the same position p set in both (an error takes them to k-1) or clear in both (k+1)
+            for k in range(P + 1):
+                for sign in ("-", "+"):
+                    for _ in range(3 if not self.full else 10):
+                        l1, l2 = sorted(rng.sample(range(L), 2))
+                        mask = g.free({l1, l2})
+                        cand = [p for p in range(P) if mask >> p & 1]
+                        need = k - 1 if sign == "-" else k
+                        if need < 0 or need > len(cand) - 1:
+                            continue
+                        p = rng.choice(cand)
+                        rest = [q for q in cand if q != p]
+                        lines = [rng.getrandbits(P) & g.free({l}) for l in range(L)]
+                        same = rng.random() < 0.5
+                        sup = rng.sample(rest, need)
+                        for l in (l1, l2):
+                            if not same:
+                                sup = rng.sample(rest, need)
+                            lines[l] = sum(1 << q for q in sup) | ((1 << p) if sign == "-" else 0)
+                        ctx.count(f"structure:lone:{o}:two-lines-of-weight-k")
+                        ctx.count(f"structure:line-weight:{k}{sign}1")
+                        self.emit(g, "lone", f"lines {l1} and {l2} have weight exactly {k}, position {p} takes both to {k}{sign}1",
+                                  lines, self.aims_near(g, p, l1, l2))
+        # messages of weight exactly k
+        g = self.grids["row"]
+        cells = self.pay.cell_of_bit
+        for k in range(97):
+            sup = sorted(rng.sample(range(96), k))
+            sset = set(sup)
+            m = "".join("1" if i in sset else "0" for i in range(96))
+            ones, zeros = [cells[i] for i in sup], [cells[i] for i in range(96) if m[i] == "0"]
+            pats = []
+            for name, S in (("two-set-bits", ones), ("two-clear-bits", zeros)):
+                same_col = [(x, y) for x, y in itertools.combinations(S, 2) if x[1] == y[1]]
+                same_row = [(x, y) for x, y in itertools.combinations(S, 2) if x[0] == y[0]]
+                for kind, P2 in (("same-column", same_col), ("same-row", same_row)):
+                    if P2:
+                        pats.append((f"{name}-{kind}", rng.choice(P2)))
+            if ones and zeros:
+                pats.append(("one-set-one-clear", (rng.choice(ones), rng.choice(zeros))))
+            if ones:
+                pats.append(("one-set-bit", (rng.choice(ones),)))
+            ctx.count("structure:lone:message-weight-k")
+            self.emit(g, "lone", f"message of weight exactly {k}", None, [(pats, 2)], m=m)
+        self.R.flush()
+
+    def constrained(self, targets, minimal, eqs=()):
+        """a message whose code word holds the given values in the given table cells (GF(2) elimination on the unit
+        code words; eqs: further equations (on-air positions whose sum is …, value)), or None; the rest of the message is
+        random unless `minimal`"""
+        E = [(self.coef[self.pay.by_rc[rc]], v) for rc, v in targets.items()]
+        for ps, v in eqs:
+            a = 0
+            for q in ps:
+                a ^= self.coef[q]
+            E.append((a, v))
+        got = solve_affine(E)
+        if got is None:
+            return None
+        x, piv = got
+        if not minimal:
+            for f in range(96):
+                if f not in piv and self.rng.getrandbits(1):
+                    x ^= 1 << f
+                    for h, (a, _) in piv.items():
+                        if a >> f & 1:
+                            x ^= 1 << h
+        return Algebra.msg(x)
+
+    def parity_lines(self):
+        """the one-bit-off structure in the parity lines of the table (and in one payload + one parity line)"""
+        ctx, rng = self.ctx, self.rng
+        if not self.alg.ok:
+            return
+        n = 0
+        for o, g in self.grids.items():
+            L, P = g.L, g.P
+            pairs = [(l1, l2) for l1 in range(L + 4) for l2 in range(max(l1 + 1, L), L + 4)]
+            for si, S in enumerate(("empty", "ones", "alt01", "above")):
+                for pi, (l1, l2) in enumerate(pairs):
+                    for p in range(P):
+                        if (pi + p + si) % self.stride != self.offset:
+                            continue
+                        n += 1
+                        targets, eqs, bad = {}, [], False
+                        for l in (l1, l2):
+                            mask = g.free({l}) if l < L else g.all
+                            if S == "above":
+                                # the line equals the line before it (payload or parity) but for position p
+                                mask &= g.free({l - 1}) if 0 < l <= L else g.all if l > L else 0
+                                eqs += [((self.pay.by_rc[g.rc(l, q)], self.pay.by_rc[g.rc(l - 1, q)]), int(q == p))
+                                        for q in range(P) if mask >> q & 1]
+                            else:
+                                x = g.base(S, mask, rng) ^ (1 << p)
+                                for q in range(P):
+                                    if mask >> q & 1:
+                                        targets[g.rc(l, q)] = x >> q & 1
+                            if not mask >> p & 1:
+                                bad = True
+                        m = None if bad else self.constrained(targets, minimal=(n % 3 == 0), eqs=eqs)
+                        if m is None:
+                            ctx.count("structure:parity-lines:not-constructible")
+                            continue
+                        c = self.R.encode(m, n % 5 == 0)
+                        reached = len(c) == 196 and all(c[self.pay.by_rc[rc]] == "01"[v] for rc, v in targets.items()) \
+                            and all((c[a] != c[b]) == bool(v) for (a, b), v in eqs)
+                        ctx.count(f"structure:parity-lines:{o}:{S}" + ("" if reached else ":not-reached"))
+                        self.emit(g, "parity-lines", f"lines {l1} and {l2} (parity lines from {L}) = [{S}] with position {p} inverted, "
+                                  + ("smallest such message" if n % 3 == 0 else "rest of the message random"), None,
+                                  self.aims_near(g, p, l1, l2), m=m)
+            self.R.flush()
+
+    def zero_parity(self):
+        """messages whose code word has an empty parity part (kernel of the restriction of the code to that part)"""
+        ctx, rng, alg, by_rc = self.ctx, self.rng, self.alg, self.pay.by_rc
+        if not alg.ok:
+            return
+        alg.regions["zero:row-parity"] = [by_rc[(r, c)] for r in range(9) for c in range(11, 15)]
+        alg.regions["zero:column-parity"] = [by_rc[(r, c)] for r in range(9, 13) for c in range(11)]
+        alg.regions["zero:checks-on-checks"] = [by_rc[(r, c)] for r in range(9, 13) for c in range(11, 15)]
+        alg.regions["zero:all-parity"] = alg.regions["parity"]
+        g = self.grids["row"]
+        for name in ("zero:row-parity", "zero:column-parity", "zero:checks-on-checks", "zero:all-parity"):
+            ker, _ = alg._solve(name)
+            part = set(alg.regions[name])
+            part_cells = [rc for rc in by_rc if by_rc[rc] in part]
+            ctx.count(f"structure:zero-parity:{name[5:]}:dimension", len(ker))
+            if not ker:
+                continue
+            for i in range(8 if not self.full else 40):
+                d = 0
+                for t in rng.sample(ker, min(len(ker), rng.choice((1, 1, 2, 3, len(ker) // 2 or 1)))):
+                    d ^= t
+                if not d:
+                    continue
+                m = Algebra.msg(d)
+                ones = [self.pay.cell_of_bit[j] for j in range(96) if m[j] == "1"]
+                pats = []
+                for kind, idx in (("same-column", 1), ("same-row", 0)):
+                    P2 = [(x, y) for x, y in itertools.combinations(ones, 2) if x[idx] == y[idx]]
+                    pats += [(f"two-set-data-cells-{kind}", pr) for pr in rng.sample(P2, min(2, len(P2)))]
+                if len(ones) >= 2:
+                    pats.append(("two-set-data-cells", tuple(rng.sample(ones, 2))))
+                x = rng.choice(ones)
+                pats.append(("set-data-cell+its-row-parity", (x, (x[0], rng.randrange(11, 15)))))
+                pats.append(("set-data-cell+its-column-parity", (x, (rng.randrange(9, 13), x[1]))))
+                pats.append(("two-cells-of-the-empty-part", tuple(rng.sample(part_cells, 2))))
+                pats.append(("one-set-data-cell", (x,)))
+                ctx.count(f"structure:zero-parity:{name[5:]}")
+                self.emit(g, "zero-parity", f"code word with an empty part: {name[5:]}", None, [(pats, 4)], m=m)
+        self.R.flush()
+
+    def regions(self):
+        """messages whose code word is EMPTY / FULL on a region of the frame as it is transmitted (the first / last k
+        bits, a table row or column, every other bit, the info cells …), or one bit away from that; errors inside the
+        region, outside of it, at the odd bit"""
+        ctx, rng, alg = self.ctx, self.rng, self.alg
+        if not alg.ok:
+            return
+        info = [q for q in alg.info_pos]
+        for name in sorted(n for n in alg.regions if not n.startswith("zero:")):
+            reg = [q for q in alg.regions[name] if self.coef[q]]
+            kind = name.split("-")[0]
+            for value in (0, 1):
+                for near in (False, True):
+                    odd = rng.choice(reg) if near else None
+                    tg = [((q,), value ^ int(q == odd)) for q in reg]
+                    m = self.constrained({}, minimal=rng.random() < 0.5, eqs=tg)
+                    if m is None:
+                        ctx.count(f"structure:regions:{kind}:not-constructible")
+                        continue
+                    outside = [q for q in info if q not in set(reg)] or info
+                    pats = [("two-inside-the-region", tuple(rng.sample(reg, 2))) if len(reg) > 1 else ("one-inside-the-region", (reg[0],)),
+                            ("one-inside+info-bit-outside", (rng.choice(reg), rng.choice(outside))),
+                            ("two-info-bits-outside", tuple(rng.sample(outside, min(2, len(outside))))),
+                            ("one-info-bit-outside", (rng.choice(outside),))]
+                    key = [("odd-bit+info-bit-outside", (odd, rng.choice([q for q in outside if q != odd] or info))), ("odd-bit", (odd,))] if near else []
+                    ctx.count(f"structure:regions:{kind}:{'full' if value else 'empty'}{':one-bit-off' if near else ''}")
+                    self.n += 1
+                    extra = {"structure": f"code word {'full' if value else 'empty'} on the region {name} of the frame"
+                             + (f" but for on-air position {odd}" if near else ""), "payload_rows": self.pay.rows(m)}
+                    for j, (nm, pos) in enumerate(key + (pats if self.full else rng.sample(pats, 2)) + [("clean", ())]):
+                        ctx.count(f"structure:aim:{nm}")
+                        self.R.check(m, tuple(sorted(set(pos))), "structure:regions", corr_level=1 if (self.n + j) % 10 == 0 else 0,
+                                     extra=dict(extra, errors_aimed_at=nm), enc_corr=(self.n % 5 == 0))
+        self.R.flush()
+
+    def light(self):
+        """the lightest / heaviest code words (unit messages, pairs of them that give a light code word, their complements)
+        with the errors at cells that are SET (clear) in the code word: the frame's weight, and the weight of the rows
+        and columns hit, go below (above) anything an intact frame of that message can have"""
+        ctx, rng, alg = self.ctx, self.rng, self.alg
+        if not alg.ok:
+            return
+        g = self.grids["row"]
+        cell_of = {q: rc for rc, q in self.pay.by_rc.items()}
+        msgs = [(1 << i, "unit message") for i in range(96)]
+        low = [d for d, x in alg.low[96:]]
+        msgs += [(d, "two message bits, light code word") for d in rng.sample(low, min(len(low), 24 if not self.full else 200))]
+        ones = (1 << 96) - 1
+        msgs += [(ones, "all-one message")] + [(ones ^ (1 << i), "all but one message bit") for i in rng.sample(range(96), 12 if not self.full else 96)]
+        msgs += [(sum(1 << i for i, b in enumerate(bits) if b), "96-bit pattern written out in the source") for bits in self.literal_messages]
+        for k, (d, what) in enumerate(msgs):
+            m = Algebra.msg(d)
+            c = self.R.encode(m, k % 5 == 0)
+            if len(c) != 196 or c.startswith("ERR"):
+                continue
+            heavy = bin(d).count("1") > 48
+            hit = [q for q in range(196) if q in cell_of and c[q] == ("0" if heavy else "1")]
+            if len(hit) < 2:
+                continue
+            pairs = list(itertools.combinations(hit, 2))
+            pats = [("two-set-cells" if not heavy else "two-clear-cells", tuple(cell_of[q] for q in pr)) for pr in pairs]
+            pats += [("one-set-cell" if not heavy else "one-clear-cell", (cell_of[q],)) for q in hit]
+            ctx.count(f"structure:light:{'heavy' if heavy else 'light'}-code-word")
+            self.emit(g, "light", f"{what}: code word of weight {c.count('1')}", None, [(pats, 6 if not heavy else 3)], m=m)
+        self.R.flush()
+
+    def run(self):
+        if not self.ok:
+            self.ctx.count("structure:layout-not-usable")
+            return
+        self.near_special()
+        self.aligned()
+        self.window()
+        self.lone()
+        self.parity_lines()
+        self.zero_parity()
+        self.regions()
+        self.light()
+
+
+def structured(ctx, R, by_rc):
+    try:
+        S = Structures(ctx, R, by_rc)
+    except Exception:  # noqa  (a layout the generator cannot read: the other classes still run; the tables are proof obligations)
+        ctx.count("structure:layout-not-usable")
+        return
+    S.run()
+
+
 def run(ctx):
     ctx.rule = (
         "message = 96 seeded random bits (plus all-zero, all-one, the 96 unit messages in thorough); error pattern = set of "
@@ -2073,7 +2865,28 @@ def run(ctx):
         "that reappear as a slice of their own code word.  (e) a stream of 8300 (thorough 66000) distinct messages through "
         "the long-lived class.  (f) ambient: a fixed sample of the histories with valid lengths again with the root logger "
         "at DEBUG, sys.stdout that raises, global random reseeded before every step, and in child interpreters `python -O` "
-        "and `python -O` with DEBUG logging configured before import; results compared with the promise and with the plain run."
+        "and `python -O` with DEBUG logging configured before import; results compared with the promise and with the plain run.  "
+        "Round 4: messages built by LINE STRUCTURE in the 9x11 payload block of the table (line = table row, or transposed: table "
+        "column) with the <= 2 errors AIMED at the structure.  near-special: two lines one bit (the same position p) away from a "
+        "special content — empty, all ones, alternating, a code word with empty parity part, equal to every other line, equal to the "
+        "line above / below / two / three above, XOR of the two lines above, complement / shift of the line above, a bit pattern "
+        "written out in the current source of the anchored files — for every p x every pair of line positions (a quick run on the "
+        "committed source takes every 4th member, seeded offset; all of them when the source drifted and in thorough); other lines "
+        "random / empty outside, before, after (the two lines are the outermost used ones, the top two, the bottom two) / all equal / "
+        "period 2, 3 / lone bits; errors: the two extra bits (always), and the bits on the other side of the relation, the parity cells "
+        "in which the lines differ from the special content, an extra bit plus a cell of the crossing / the same line, the two cells "
+        "whose row-pass mis-correction lands on the extra bit, each extra bit alone (quick: one of these, thorough: all).  aligned: two "
+        "lines ARE special; errors in the same position of both (every position, parity included), in a line and its twin.  window: "
+        "the used lines are [a, b] (dense, only the ends, every other line); errors in the first and last used line, the first two, the "
+        "last two, just outside, across the edge.  lone: every line exactly one set bit (same position, diagonals, random) with errors "
+        "at pairs of them; two lines of weight exactly k = 0..P taken to k-1 / k+1; messages of weight 0..96.  parity-lines: the one-bit-"
+        "off structure in the parity rows 9..12 / columns 11..14 and in one payload + one parity line (message found by GF(2) "
+        "elimination on the unit code words, checked on the real code word).  zero-parity / regions: code words with an empty row-"
+        "parity / column-parity / checks-on-checks / whole parity part, code words empty or full (or one bit off) on a region of the "
+        "transmitted frame.  light: unit messages, light pairs, all-one and all-but-one messages with the errors at set (clear) cells "
+        "of the code word.  The clean code word of every other such message is checked too; model vs code on the layout itself "
+        "(bptc.rows / bptc.table against fill_encoding_table of the real class); 12 % of the histories use such a message with the "
+        "aimed errors."
     )
     ctx.trusted_base += [
         "Lean 4.33 kernel",
@@ -2089,6 +2902,10 @@ def run(ctx):
         "m, checked against the content the object really holds when the call is made)",
         "calls outside the modelled domain (wrong types, repair_if_necessary(deinterleaved=True)) are compared with the same call on a "
         "new copy of the class only (the model sees a no-op)",
+        "the structured messages of round 4 are BUILT from the harness' reading of INTERLEAVING_INDICES (message bit <-> table cell, cell "
+        "<-> on-air position; compared with fill_encoding_table of the class and with the model ops bptc.rows / bptc.table on every run) "
+        "and, for structures in the parity lines, by GF(2) elimination on the unit code words of a new copy of the class; what is checked "
+        "for them is only the property as stated, on frames that encode itself produced",
     ]
     ctx.assumptions += [
         "inputs are bitarrays (big-endian containers; little-endian containers with the same bit sequence in the history probes: the entry points index the bits, so the model ignores the container's bit order); messages have 96 bits, received words 196 bits (other lengths: both sides raise/return AssertionError, compared)",
@@ -2169,6 +2986,10 @@ def _run(ctx, R, rng):
     # ---------------- correlations between parts of one input: a byte of the message / of the received word that
     # equals an inverted position, messages that reappear as a slice of their own code word
     correlated(ctx, R, by_rc)
+    R.flush()
+
+    # ---------------- structure of the message in the payload table (rows / columns) with the errors aimed at it
+    structured(ctx, R, by_rc)
     R.flush()
 
     # ---------------- scale: a stream of distinct messages through the long-lived class (past 8192 / 65536 entries)
@@ -2303,6 +3124,16 @@ def replay(obj):
         return 1
     m, positions = inp["message"], inp.get("error_positions", [])
     c = call(B.encode, bitarray(m))
+    if inp.get("structure"):
+        print("built by structure :", inp["structure"], "| errors aimed at:", inp.get("errors_aimed_at"))
+        try:
+            pos, by_rc = layout()
+            where = {p: rc for rc, p in by_rc.items()}
+            for r, row in enumerate(Payload(by_rc).rows(m)):
+                print(f"payload row {r}      = {row}")
+            print("inverted cells (table row, column) =", [where.get(p) for p in positions])
+        except Exception as e:  # noqa
+            print("payload rows not available:", e)
     print(f"message            = {m}")
     print(f"implementation encode             = {c}")
     bad = 0
